@@ -52,17 +52,24 @@ def names_for(kind, n):
 def mk_dag(names, edges, latents=()):
     from pgmpy.base import DAG
     from pgmpy.models import BayesianNetwork
+    import random
+    # the order in which nodes and edges are inserted is not part of a graph: every graph gets its own (deterministic) shuffle
+    prng = random.Random(len(edges) * 131 + len(names) * 17 + sum((i + 1) * (u * 7 + v) for i, (u, v) in enumerate(edges)))
+    node_order = list(names)
+    prng.shuffle(node_order)
+    edges = list(map(tuple, edges))
+    prng.shuffle(edges)
     lat = [gen.lab(names[v]) for v in latents]
     if (len(edges) + len(latents)) % 2 == 0:
         # the public way of declaring latent nodes one by one, on the class most users build; a latent declared on one graph
         # object must never show up in another one (the workers build thousands of graphs in one process)
         g = BayesianNetwork()
-        for x in names:
+        for x in node_order:
             g.add_node(gen.lab(x), latent=gen.lab(x) in lat)
         g.add_edges_from([(gen.lab(names[u]), gen.lab(names[v])) for u, v in edges])
         return g
     g = DAG()
-    g.add_nodes_from([gen.lab(x) for x in names])
+    g.add_nodes_from([gen.lab(x) for x in node_order])
     g.add_edges_from([(gen.lab(names[u]), gen.lab(names[v])) for u, v in edges])
     g.latents = set(lat)
     return g
@@ -90,10 +97,12 @@ def enum_small(tier):
                     yield {"n": n, "edges": [list(e) for e in edges], "obs": list(obs),
                            "names": NAME_KINDS[h % 3], "cont": ["list", "set", "tuple", "single"][(h // 3) % 4]}
                     k += 1
-    if tier == "thorough":
-        import random
-        rng = random.Random(5)
-        for edges in dags(5):
+    import random
+    rng = random.Random(5)
+    for j, edges in enumerate(dags(5)):
+        if tier != "thorough" and j % 23:
+            continue                      # quick tier: every 23rd five-node DAG
+        if True:
             for _ in range(3):
                 obs = [v for v in range(5) if rng.random() < .35]
                 h = (k * 2654435761 % (2 ** 32)) >> 5
